@@ -7,11 +7,13 @@ property's oracle compares a snapshot of the whole scratch tree (the working dir
 levels of ancestors*) before and after.
 """
 import contextlib
+import errno
 import hashlib
 import io
 import itertools
 import os
 import shutil
+import socket
 import stat
 import tempfile
 import warnings
@@ -43,6 +45,22 @@ RULE = ("configuration matrix {output-file unset / new / existing file / existin
         "'.hidden', NUL, 300 chars; joined by '/', '//', '\\\\'; leading/trailing separators; absolute names into the "
         "sandbox) plus zip archives with hostile member names; thorough adds every name of <= 3 components; "
         "non-trivial = reaches a decision branch of _decide_destname/_extract_file; distinct = distinct canonical traces")
+
+SYS_TMP = tempfile.gettempdir()          # captured before any case redirects tempfile.tempdir
+
+
+def _other_filesystem():
+    """a writable directory on a different file system than SYS_TMP (for "the spool is on another file system")"""
+    for d in ("/dev/shm", "/run/shm", "/var/tmp"):
+        try:
+            if os.path.isdir(d) and os.access(d, os.W_OK) and os.stat(d).st_dev != os.stat(SYS_TMP).st_dev:
+                return d
+        except OSError:
+            pass
+    return None
+
+
+OTHER_FS = _other_filesystem()
 
 DEPTH = ["L1", "L2", "L3", "L4", "par"]
 LONG = "L" * 300
@@ -101,7 +119,7 @@ def gen_members(rng):
     for _ in range(k):
         nm = gen_name(rng, [c for c in COMPONENTS if "\x00" not in c])
         if rng.random() < 0.3:
-            nm = rng.choice(["inner.txt", "sub/inner.txt", "sub/", "inner.lnk", "sub.lnk/inner.txt", "../{DESTBASE}-plus/haha", "../keep.txt", "../../sibling.txt",
+            nm = rng.choice(["inner.txt", "sub/inner.txt", "sub/", "inner.lnk", "sub.lnk/inner.txt", "inner.sock", "../{DESTBASE}-plus/haha", "../keep.txt", "../../sibling.txt",
                              "{DEST}/x", "{DEST}", "{DEST}-plus/haha", "a/../../keep.txt", "./a", "a//b", "C:\\x", "C:/x"])
         out.append([nm, rng.choice(PERMS)])
     return out
@@ -114,7 +132,7 @@ def recv_case(rng, name=None, output=None, accept=None, pre=None, mode=None, lev
              output=output or rng.choice(list(OUTPUTS) + ["unset"] * 6 + ["dir"] * 3 + ["file"] * 2),
              accept=rng.random() < 0.6 if accept is None else accept,
              answer=rng.choice(["y", "Y", "", "yes", "n", "no", "x", " y"]),
-             pre=pre or rng.choice(["none", "none", "file", "dir"]),
+             pre=pre or rng.choice(["none", "none", "none", "file", "file", "dir", "dir", "fifo", "socket", "chardev"]),
              pretmp="none",
              zipmode=rng.choice(["zipfile/deflated"] * 8 + ["zipfile", "tarball", ""]),
              level=level or rng.choice(["full", "full", "full", "decide"]))
@@ -122,6 +140,9 @@ def recv_case(rng, name=None, output=None, accept=None, pre=None, mode=None, lev
         c["members"] = gen_members(rng)
     if name is None and rng.random() < 0.15:
         c["link"] = rand_link(rng)
+    if name is None and rng.random() < 0.05:
+        c["pretmp"] = "socket"
+    c["fs"] = "cross" if rng.random() < 0.25 else "same"
     return c
 
 
@@ -152,6 +173,40 @@ def link_corpus(rng):
             c["fault"] = "none"
         if md == "dir":
             c["members"] = [["inner.txt", 0o600], ["inner.lnk", 0o644], ["sub.lnk/inner.txt", 0o600], ["sub/x", 0o644]]
+        out.append(c)
+    return out
+
+
+def special_corpus(rng):
+    """special nodes (named pipe, unix socket, device) at the destination name / the staging name, and the spool
+    directory on another file system than the working directory"""
+    out = []
+    for pre, o, md, acc, world in itertools.product(["fifo", "socket", "chardev"], ["unset", "dir", "dir_slash"], ["file", "dir"],
+                                                    [True, False], ["recv", "go"]):
+        c = recv_case(rng, name="a", output=o, accept=acc, pre=pre, mode=md, level="full") if world == "recv" else \
+            go_case(rng, name="a", output=o, accept=acc, pre=pre, mode=md)
+        c.update(answer="y", zipmode="zipfile/deflated", fs="same")
+        if "fault" in c:
+            c["fault"] = "none"
+        if md == "dir":
+            c["members"] = [["inner.txt", 0o600], ["inner.sock", 0o644], ["sub/x", 0o644]]
+        out.append(c)
+    for o, acc in itertools.product(["unset", "dir"], [True, False]):
+        c = recv_case(rng, name="a", output=o, accept=acc, pre="none", mode="file", level="full")
+        c.update(answer="y", pretmp="socket", fs="same")
+        out.append(c)
+    # $TMPDIR on another file system, crossed with what may sit at the destination name
+    for link, pre, o, acc, world in itertools.product([None, "dangling", "file", "chain_dangling"], ["none", "file"], ["unset", "dir", "file", "new"],
+                                                      [True, False], ["recv", "go"]):
+        if link and pre != "none":
+            continue
+        c = recv_case(rng, name="latest.log", output=o, accept=acc, pre=pre, mode="file", level="full") if world == "recv" else \
+            go_case(rng, name="latest.log", output=o, accept=acc, pre=pre, mode="file")
+        c.update(answer="y", fs="cross")
+        if "fault" in c:
+            c["fault"] = "none"
+        if link:
+            c["link"] = dict(where="dest", to=link, abs=False)
         out.append(c)
     return out
 
@@ -256,6 +311,7 @@ def cases(rng, tier):
     out.extend(go_corpus(rng))
     out.extend(entry_corpus(rng))
     out.extend(link_corpus(rng))
+    out.extend(special_corpus(rng))
     # --- generated ----------------------------------------------------------------------------
     n = 1 if tier == "quick" else 25
     for _ in range(450 * n):
@@ -285,8 +341,14 @@ def cases(rng, tier):
 # sandbox
 
 class Sandbox:
-    def __init__(self):
-        self.outer = os.path.realpath(tempfile.mkdtemp(prefix="c05-"))
+    def __init__(self, cross=False):
+        """`cross`: the working directory tree lives on another file system than the spool directory ($TMPDIR); where the
+        machine has no second file system, os.rename between the two roots is made to fail with EXDEV instead"""
+        self.cross = cross
+        self.real_cross = bool(cross and OTHER_FS)
+        self.outer = os.path.realpath(tempfile.mkdtemp(prefix="c05-", dir=OTHER_FS if self.real_cross else SYS_TMP))
+        # second top-level root: what tempfile.gettempdir() / $TMPDIR is while the code under test runs
+        self.spool = os.path.realpath(tempfile.mkdtemp(prefix="c05-spool-", dir=SYS_TMP))
         p = self.outer
         for d in DEPTH:
             p = os.path.join(p, d)
@@ -312,9 +374,37 @@ class Sandbox:
             f.write(data)
         os.chmod(path, mode)
 
+    @staticmethod
+    def put_special(path, what):
+        """a special node: exists, neither regular file nor directory.  Returns what was made."""
+        if what == "socket":
+            try:
+                sk = socket.socket(socket.AF_UNIX, socket.SOCK_STREAM)
+                try:
+                    sk.bind(path)
+                finally:
+                    sk.close()
+                return "socket"
+            except (OSError, ValueError):   # path too long for sun_path, …
+                if os.path.lexists(path):
+                    return "socket"
+                what = "fifo" if not path.endswith(".tmp") else "none"
+        if what == "chardev":
+            try:
+                os.mknod(path, stat.S_IFCHR | 0o600, os.makedev(1, 3))
+                return "chardev"
+            except OSError:
+                what = "fifo"
+        if what == "fifo":
+            os.mkfifo(path)
+            return "fifo"
+        return "none"
+
     def put_dir(self, path):
         os.mkdir(path)
         self.put_file(os.path.join(path, "inner.txt"), b"precious inner")
+        self.put_special(os.path.join(path, "inner.fifo"), "fifo")
+        self.put_special(os.path.join(path, "inner.sock"), "socket")
         os.symlink(os.path.join(self.vault, "victim.txt"), os.path.join(path, "inner.lnk"))
         os.symlink(os.path.join(self.vault, "vdir"), os.path.join(path, "sub.lnk"))
 
@@ -326,7 +416,7 @@ class Sandbox:
 
     def snapshot(self):
         snap = {}
-        for root, dirs, files in os.walk(self.outer):
+        for root, dirs, files in itertools.chain(os.walk(self.outer), os.walk(self.spool)):
             for nm in dirs + files:
                 p = os.path.join(root, nm)
                 st = os.lstat(p)
@@ -344,7 +434,36 @@ class Sandbox:
                 else:
                     snap[p] = ("o", stat.S_IMODE(st.st_mode), None)
         snap[self.outer] = ("d", None, None)
+        snap[self.spool] = ("d", None, None)
         return snap
+
+    @contextlib.contextmanager
+    def spooling(self):
+        """while the code under test runs: $TMPDIR / tempfile.gettempdir() is the spool root"""
+        old_td, had, old_env = tempfile.tempdir, "TMPDIR" in os.environ, os.environ.get("TMPDIR")
+        tempfile.tempdir = self.spool
+        os.environ["TMPDIR"] = self.spool
+        patches = []
+        if self.cross and not self.real_cross:
+            real_rename, a, b = os.rename, self.outer + os.sep, self.spool + os.sep
+
+            def rename(src, dst, *args, **kw):
+                s_, d_ = os.path.abspath(os.fspath(src)), os.path.abspath(os.fspath(dst))
+                if (s_.startswith(a) and d_.startswith(b)) or (s_.startswith(b) and d_.startswith(a)):
+                    raise OSError(errno.EXDEV, "Invalid cross-device link", os.fspath(src), None, os.fspath(dst))
+                return real_rename(src, dst, *args, **kw)
+            patches.append(mock.patch.object(os, "rename", rename))
+        try:
+            with contextlib.ExitStack() as st:
+                for p_ in patches:
+                    st.enter_context(p_)
+                yield
+        finally:
+            tempfile.tempdir = old_td
+            if had:
+                os.environ["TMPDIR"] = old_env
+            else:
+                os.environ.pop("TMPDIR", None)
 
     def cleanup(self):
         for root, dirs, files in os.walk(self.outer):
@@ -356,6 +475,7 @@ class Sandbox:
                 except OSError:
                     pass
         shutil.rmtree(self.outer, ignore_errors=True)
+        shutil.rmtree(self.spool, ignore_errors=True)
 
 
 def kind_of(p):
@@ -596,6 +716,8 @@ def prepare(case, sb):
             sb.put_file(would_be, b"old destination")
         elif case["pre"] == "dir":
             sb.put_dir(would_be)
+        elif case["pre"] in ("fifo", "socket", "chardev"):
+            sb.put_special(would_be, case["pre"])
     # decoys: unrelated files of the user whose names are *other spellings* of the offered basename
     # (Unicode normal forms, case, surrounding blanks).  The receiver said it writes to `seg`;
     # none of these may be touched.
@@ -609,6 +731,9 @@ def prepare(case, sb):
     if placeable and case.get("pretmp", "none") != "none" and not os.path.lexists(would_be + ".tmp"):
         if case["pretmp"] == "file":
             sb.put_file(would_be + ".tmp", b"precious, unrelated to the transfer")
+        elif case["pretmp"] == "socket":
+            # (never a FIFO or a device here: open(NAME.tmp, "wb") on a FIFO blocks for ever, which would hang the check)
+            sb.put_special(would_be + ".tmp", "socket")
         else:
             sb.put_dir(would_be + ".tmp")
 
@@ -641,9 +766,12 @@ def prepare(case, sb):
 
 
 def run_recv(case):
-    sb = Sandbox()
+    sb = Sandbox(cross=case.get("fs") == "cross")
     try:
-        return _run_recv(case, sb)
+        with sb.spooling():
+            r = _run_recv(case, sb)
+        r.tags.append("fs:" + ("cross" if sb.cross else "same") + (":emulated" if sb.cross and not sb.real_cross else ""))
+        return r
     finally:
         sb.cleanup()
 
@@ -930,10 +1058,13 @@ PWD_MODES = ["other", "other", "other_slash", "unset", "relative", "nonexistent"
 
 
 def run_go(case):
-    sb = Sandbox()
+    sb = Sandbox(cross=case.get("fs") == "cross")
     if case.get("kind") != "entry":
         try:
-            return _run_go(case, sb)
+            with sb.spooling():
+                r = _run_go(case, sb)
+            r.tags.append("fs:" + ("cross" if sb.cross else "same") + (":emulated" if sb.cross and not sb.real_cross else ""))
+            return r
         finally:
             sb.cleanup()
     # the real entry point: Config() is built by the click group itself, after a real chdir() into the sandbox's working
@@ -955,7 +1086,8 @@ def run_go(case):
             os.environ.pop("PWD", None)
         else:
             os.environ["PWD"] = pwd
-        return _run_go(case, sb, entry=dict(pwd=pwd, other=other))
+        with sb.spooling():
+            return _run_go(case, sb, entry=dict(pwd=pwd, other=other))
     finally:
         os.chdir(old_cwd)
         if had_pwd:
